@@ -176,8 +176,10 @@ def _accessors(ck: Checker) -> None:
         ck.require(w is None, "C17.accessors", it, y, "each entry is loaded before it is yielded", "an entry can be yielded without having been loaded", witness=g.fmt_path(w) if w else None)
     pt = [t for t in g.nodes.values() if t.kind == "test" and norm(t.ast) == "prefix" and not t.loops]
     okp = False
+    # the local holding the longest-prefix lookup (nothing to load when there is none)
+    lpn = {"item"} | {norm(a_.targets[0]) for a_ in walk_own(it.node) if isinstance(a_, ast.Assign) and len(a_.targets) == 1 and isinstance(a_.value, ast.Call) and is_method_call(a_.value, "longest_prefix")}
     for t in pt:
-        r = g.reach([d for lab, d in t.succ if lab == "T"], skip_node=lambda x: x.id in lds, skip_edge=lambda a, l, b: l == "exc" or (a.kind == "test" and norm(a.ast) == "item" and l == "F"))
+        r = g.reach([d for lab, d in t.succ if lab == "T"], skip_node=lambda x: x.id in lds, skip_edge=lambda a, l, b: l == "exc" or (a.kind == "test" and norm(a.ast) in lpn and l == "F"))
         okp = h.id not in r
         # the load concerns the longest prefix of `prefix`
         lp = [c for c in walk_own(it.node) if isinstance(c, ast.Call) and is_method_call(c, "longest_prefix") and c.args and norm(c.args[0]) == "prefix"]
